@@ -211,7 +211,9 @@ pub fn check(c: &Case1, st: &mut Stats, cfg: &Cfg, bin: &std::path::Path, scratc
     }
 
     // the way the run ends, on the real binary
-    if cfg.cli && matches!(end, End::Normal | End::Stop(Stop::Exit(_)) | End::Stop(Stop::Encoding(_))) {
+    if cfg.cli && model.flags.stack_ops > 4_000_000 {
+        st.exclude("more than 4 million stack operations: not run on the binary (fixed CPU limit)");
+    } else if cfg.cli && matches!(end, End::Normal | End::Stop(Stop::Exit(_)) | End::Stop(Stop::Encoding(_))) {
         let r = match proc::run_hyeong(bin, scratch, &text, 0, c.0.stdin.as_bytes(), |o| {
             o.cpu_secs = Some(20);
             o.wall = Duration::from_secs(120);
